@@ -25,7 +25,8 @@ def gen_kepler(seed, shard, n):
         e = rng.choice(es) if rng.random() < 0.6 else rng.uniform(0, 0.999999)
         r = rng.random()
         if r < 0.3:
-            M = 180.0 * rng.randint(-55, 55) + rng.choice([0.0, 1e-9, -1e-9, 1e-6, -1e-6, 1e-3, -1e-3])
+            M = 180.0 * rng.randint(-55, 55) + rng.choice([0.0, 1e-9, -1e-9, 1e-6, -1e-6, 1e-3, -1e-3, 3e-7, -3e-7, 2e-7, 5e-7,
+                                                           4e-4, -0.3, rng.choice([1, -1]) * 10 ** rng.uniform(-8, -3)])
         elif r < 0.6:
             M = rng.uniform(-1e4, 1e4)
         elif r < 0.8:
@@ -34,7 +35,12 @@ def gen_kepler(seed, shard, n):
             M = float(rng.randint(-10000, 10000))
         ev = {"k": "kep", "ef": e, "Mf": M, "e": fx(e), "M": fx(M)}
         try:
-            E, v = kepler_equation(e, Angle(M))
+            Ma = Angle(M)
+            M = Ma()                                   # the value the Angle holds (after its own reduction)
+            ev["Mf"], ev["M"] = M, fx(M)
+            if rng.random() < 0.2:
+                Ma.set_tolerance(rng.choice([1e-3, 0.5, 0.0]))      # the Angle's comparison tolerance is not part of its value
+            E, v = kepler_equation(e, Ma)
             E, v = float(E), float(v)
             ev.update(oc="ok", E=fx(E), v=fx(v), Ef=E, vf=v)
             ev["sE"], ev["cE"] = _sc(E)
